@@ -16,4 +16,134 @@ theorem fftfreqIdx_zero (n : ℤ) (hn : 1 ≤ n) : fftfreqIdx n 0 = 0 := by
 theorem fftfreq_zero (n : ℤ) (hn : 1 ≤ n) : (fftfreq n 0 : ℝ) = 0 := by
   unfold fftfreq; rw [fftfreqIdx_zero n hn]; simp [RealLike.ofInt]
 
+open ComplexConjugate
+
+/-- the plain DFT kernel `exp(-2πi·a·k/n)` as the shared kernel with the centring cancelled -/
+noncomputable def fker (n : ℕ) (a k : ℤ) : ℂ := ker (1 / n) n n ((n : ℤ) / 2) (-(((n : ℤ) / 2 : ℤ) : ℝ)) a k
+
+theorem fker_symm (n : ℕ) (a k : ℤ) : fker n a k = fker n k a := by
+  unfold fker ker cc; congr 1; push_cast; ring
+
+theorem fker_zero_left (n : ℕ) (k : ℤ) : fker n 0 k = 1 := by
+  unfold fker ker cc; simp
+
+theorem orth_fker (n : ℕ) (hn : 0 < n) : Orth n n (fun a k => fker n a k) :=
+  orth_ker n n hn le_rfl n _ _
+
+@[simp] theorem fft2_s0 (x : Arr ℂ) : (fft2 (R := ℝ) x).s0 = x.s0 := rfl
+@[simp] theorem fft2_s1 (x : Arr ℂ) : (fft2 (R := ℝ) x).s1 = x.s1 := rfl
+
+theorem fft2_get_eq (x : Arr ℂ) (m n : ℕ) (hm : x.s0 = m) (hn : x.s1 = n) (k l : ℤ) :
+    (fft2 (R := ℝ) x).get k l = ∑ b ∈ range n, (∑ a ∈ range m, fker m a k * x.get a b) * fker n b l := by
+  unfold fft2
+  rw [dft2_get_eq]
+  simp only [dft2Sum, hm, hn, RealLike.ofInt, Int.toNat_natCast, Bool.false_eq_true, if_false, one_mul, Int.cast_one,
+    Int.cast_natCast, fker]
+
+theorem ifft2_get_eq (X : Arr ℂ) (m n : ℕ) (hm : X.s0 = m) (hn : X.s1 = n) (i j : ℤ) :
+    (ifft2 (R := ℝ) X).get i j
+      = (∑ v ∈ range n, (∑ u ∈ range m, conj (fker m u i) * X.get u v) * conj (fker n v j)) / ((m : ℂ) * n) := by
+  unfold ifft2
+  simp only [CxLike.divInt, CxLike.conj]
+  rw [fft2_get_eq ⟨X.s0, X.s1, fun i j => conj (X.get i j)⟩ m n hm hn]
+  simp only [map_sum, map_mul, Complex.conj_conj, hm, hn]
+  push_cast
+  rfl
+
+/-- `ifft2 ∘ fft2 = id` on every sample (contract-level inversion of the plain DFT pair) -/
+theorem ifft2_fft2 (x : Arr ℂ) (m n : ℕ) (hm : x.s0 = m) (hn : x.s1 = n) (hm0 : 0 < m) (hn0 : 0 < n)
+    (i j : ℕ) (hi : i < m) (hj : j < n) : (ifft2 (R := ℝ) (fft2 (R := ℝ) x)).get i j = x.get i j := by
+  rw [ifft2_get_eq _ m n (by simpa using hm) (by simpa using hn)]
+  simp only [fft2_get_eq x m n hm hn, fker_symm m _ (i : ℤ), fker_symm n _ (j : ℤ)]
+  rw [inv2 m n m n (fun a k => fker m a k) (fun b l => fker n b l) (orth_fker m hm0) (orth_fker n hn0)
+    (fun a b => x.get a b) i j hi hj]
+  have hm' : (m : ℂ) ≠ 0 := by exact_mod_cast hm0.ne'
+  have hn' : (n : ℂ) ≠ 0 := by exact_mod_cast hn0.ne'
+  field_simp
+
+/-- with the all-ones transfer function the blur core returns `|img|` -/
+theorem blurCore_one (img k : Arr ℝ) (hk : ∀ i j, k.get i j = 1) (m n : ℕ) (hm : img.s0 = m) (hn : img.s1 = n)
+    (hm0 : 0 < m) (hn0 : 0 < n) (i j : ℕ) (hi : i < m) (hj : j < n) :
+    (blurCore ℂ img k).get i j = |img.get i j| := by
+  have hmul : mulKernel (fft2 (R := ℝ) (toCx (K := ℂ) img)) k = fft2 (R := ℝ) (toCx (K := ℂ) img) := by
+    unfold mulKernel; simp only [hk, CxLike.ofReal, Complex.ofReal_one, mul_one]
+  unfold blurCore
+  rw [hmul]
+  simp only [absArr, AbsLike.cabs]
+  rw [ifft2_fft2 (toCx (K := ℂ) img) m n hm hn hm0 hn0 i j hi hj]
+  simp [toCx, CxLike.ofReal]
+
+/-- renormalising an array by its own total is the identity when the total is non-zero -/
+theorem renorm_of_eq (img out : Arr ℝ) (m n : ℕ) (hm : img.s0 = m) (hn : img.s1 = n) (hm' : out.s0 = m) (hn' : out.s1 = n)
+    (h : ∀ i j : ℕ, i < m → j < n → out.get i j = img.get i j) (hS : arrSum img ≠ 0) (i j : ℕ) (hi : i < m) (hj : j < n) :
+    (renorm img out).get i j = img.get i j := by
+  have hsum : arrSum out = arrSum img := by
+    rw [arrSum_eq, arrSum_eq, hm, hn, hm', hn']
+    simp only [Int.toNat_natCast]
+    exact sum_congr rfl fun i hi => sum_congr rfl fun j hj => h i j (mem_range.mp hi) (mem_range.mp hj)
+  simp only [renorm, hsum, h i j hi hj]
+  field_simp
+
+/-! ## the blur keeps the (complex) total: `Σ ifft2(Y) = Y[0,0]` -/
+
+theorem sum_conj_fker (m : ℕ) (hm0 : 0 < m) (u : ℕ) (hu : u < m) :
+    ∑ i ∈ range m, conj (fker m u i) = if u = 0 then (m : ℂ) else 0 := by
+  have := (orth_fker m hm0).conj u hu 0 hm0
+  simpa [fker_zero_left] using this
+
+theorem sum_swap4 (m n : ℕ) (a b Y : ℕ → ℕ → ℂ) :
+    ∑ i ∈ range m, ∑ j ∈ range n, ∑ v ∈ range n, (∑ u ∈ range m, a u i * Y u v) * b v j
+      = ∑ v ∈ range n, (∑ u ∈ range m, (∑ i ∈ range m, a u i) * Y u v) * ∑ j ∈ range n, b v j := by
+  have h1 : ∀ i ∈ range m, ∑ j ∈ range n, ∑ v ∈ range n, (∑ u ∈ range m, a u i * Y u v) * b v j
+      = ∑ v ∈ range n, (∑ u ∈ range m, a u i * Y u v) * ∑ j ∈ range n, b v j := by
+    intro i _; rw [sum_comm]; exact sum_congr rfl fun v _ => by rw [mul_sum]
+  rw [sum_congr rfl h1, sum_comm]
+  refine sum_congr rfl fun v _ => ?_
+  rw [← sum_mul]; congr 1
+  rw [sum_comm]; exact sum_congr rfl fun u _ => by rw [sum_mul]
+
+theorem sum_ifft2 (Y : Arr ℂ) (m n : ℕ) (hm : Y.s0 = m) (hn : Y.s1 = n) (hm0 : 0 < m) (hn0 : 0 < n) :
+    ∑ i ∈ range m, ∑ j ∈ range n, (ifft2 (R := ℝ) Y).get i j = Y.get 0 0 := by
+  simp only [ifft2_get_eq Y m n hm hn, div_eq_mul_inv, ← sum_mul]
+  rw [sum_swap4 m n (fun u i => conj (fker m u i)) (fun v j => conj (fker n v j)) (fun u v => Y.get u v)]
+  have hA : ∀ v ∈ range n, (∑ u ∈ range m, (∑ i ∈ range m, conj (fker m u i)) * Y.get u v) * ∑ j ∈ range n, conj (fker n v j)
+      = if v = 0 then (m : ℂ) * Y.get 0 v * n else 0 := by
+    intro v hv
+    rw [sum_conj_fker n hn0 v (mem_range.mp hv)]
+    have : ∑ u ∈ range m, (∑ i ∈ range m, conj (fker m u i)) * Y.get u v = (m : ℂ) * Y.get 0 v := by
+      rw [sum_congr rfl (fun u hu => by rw [sum_conj_fker m hm0 u (mem_range.mp hu)])]
+      simp only [ite_mul, zero_mul]
+      rw [sum_ite_eq' (range m) 0 (fun u => (m : ℂ) * Y.get u v)]
+      simp [hm0]
+    rw [this]; split_ifs <;> simp
+  rw [sum_congr rfl hA, sum_ite_eq' (range n) 0 (fun v => (m : ℂ) * Y.get 0 v * n)]
+  have hm' : (m : ℂ) ≠ 0 := by exact_mod_cast hm0.ne'
+  have hn' : (n : ℂ) ≠ 0 := by exact_mod_cast hn0.ne'
+  simp only [mem_range, hn0, if_true, Nat.cast_zero]
+  field_simp
+
+/-- zero-frequency sample of the transform of a real image is its total -/
+theorem fft2_dc (img : Arr ℝ) (m n : ℕ) (hm : img.s0 = m) (hn : img.s1 = n) :
+    (fft2 (R := ℝ) (toCx (K := ℂ) img)).get 0 0 = ((arrSum img : ℝ) : ℂ) := by
+  rw [fft2_get_eq _ m n hm hn, arrSum_eq, hm, hn]
+  simp only [fker_symm _ _ 0, fker_zero_left, one_mul, mul_one, toCx, CxLike.ofReal, Int.toNat_natCast]
+  push_cast
+  rw [sum_comm]
+
+/-- the un-normalised blur has total at least `|k[0,0]·Σ img|` (triangle inequality on `Σ ifft2(…) = Y[0,0]`) -/
+theorem blurCore_total_ge (img k : Arr ℝ) (m n : ℕ) (hm : img.s0 = m) (hn : img.s1 = n) (hm0 : 0 < m) (hn0 : 0 < n) :
+    |k.get 0 0 * arrSum img| ≤ arrSum (blurCore ℂ img k) := by
+  have hY := sum_ifft2 (mulKernel (fft2 (R := ℝ) (toCx (K := ℂ) img)) k) m n hm hn hm0 hn0
+  have hval : (mulKernel (fft2 (R := ℝ) (toCx (K := ℂ) img)) k).get 0 0 = ((k.get 0 0 * arrSum img : ℝ) : ℂ) := by
+    simp only [mulKernel, fft2_dc img m n hm hn, CxLike.ofReal]; push_cast; ring
+  rw [arrSum_eq (blurCore ℂ img k)]
+  have h0 : (blurCore ℂ img k).s0 = m := hm
+  have h1 : (blurCore ℂ img k).s1 = n := hn
+  rw [h0, h1]
+  simp only [Int.toNat_natCast, blurCore, absArr, AbsLike.cabs]
+  calc |k.get 0 0 * arrSum img| = ‖((k.get 0 0 * arrSum img : ℝ) : ℂ)‖ := by rw [Complex.norm_real, Real.norm_eq_abs]
+    _ = ‖∑ i ∈ range m, ∑ j ∈ range n, (ifft2 (R := ℝ) (mulKernel (fft2 (R := ℝ) (toCx (K := ℂ) img)) k)).get i j‖ := by
+        rw [hY, hval]
+    _ ≤ _ := (norm_sum_le _ _).trans (sum_le_sum fun i _ => norm_sum_le _ _)
+
 end Lentil
